@@ -445,7 +445,7 @@ func ZZ_C13_flows() {
 
 // ZZ_C13_request_object: the `request` / `request_uri` parameters: a request_uri is honoured only if
 // pre-registered; a client without registered keys (or without OpenID Connect capabilities) cannot use
-// either; both at once are refused. (Signed request objects by value: see ZZ_C13_request_object_signed_T.)
+// either; both at once are refused. (Signed request objects by value: see ZZ_C13_request_object_signed.)
 func ZZ_C13_request_object() {
 	r := defaultRegistration()
 	kind := zz.Choice("client", 3)
@@ -466,7 +466,7 @@ func ZZ_C13_request_object() {
 	zz.Assume(ru != "" || ro != "")
 	// (the fetch of a registered request_uri is the environment's business: in the model, as in the sandbox
 	// of the native replays, there is no network and every fetch fails)
-	// a by-value request object for a client with keys is parsed by go-jose: ZZ_C13_request_object_signed_T
+	// a by-value request object for a client with keys is parsed by go-jose: ZZ_C13_request_object_signed
 	zz.Assume(!(ro != "" && ru == "" && kind == 2))
 	q.extra = url.Values{}
 	if ru != "" {
@@ -491,11 +491,11 @@ func ZZ_C13_request_object() {
 	}
 }
 
-// ZZ_C13_request_object_signed_T (thorough tier; uses agentF2's go-jose model through zzjwt): parameters taken
+// ZZ_C13_request_object_signed (thorough tier; uses agentF2's go-jose model through zzjwt): parameters taken
 // from a by-value request object are honoured only if it is signed with a key registered for the client
 // and with the registered algorithm; unsigned (alg none) only where the registration permits (an empty
 // request_object_signing_alg permits any algorithm including none, as the code's quoted OpenID text says).
-func ZZ_C13_request_object_signed_T() {
+func ZZ_C13_request_object_signed() {
 	regAlg := []string{"", "RS256", "ES256", "none"}[zz.Choice("registered_alg", 4)]
 	regPriv, regPub := zzjwt.GenKey(zzjwt.RSA)
 	othPriv, _ := zzjwt.GenKey(zzjwt.RSA)
